@@ -13,7 +13,7 @@ from common import lean_driver
 
 LEVEL = 'proof'
 
-TOKS = ['-m', '--', '-l', '-v', '-o', 'x', 'mod', '-p', '--view', '-b', 'a=b', '-z', '-h', '--help', '--line-profile', '--pro', '--out', '', 'a b']     # the empty string and a token with a space are arguments like any other
+TOKS = ['-m', '--', '-l', '-v', '-o', 'x', 'mod', '-p', '--view', '-b', 'a=b', '-z', '-h', '--help', '--line-profile', '--pro', '--out', '', 'a b', '@x']     # the empty string and a token with a space are arguments like any other
 # (prefix, line_by_line, view, outfile or None)
 PREFIXES = [
     ([], False, False, None), (['-l'], True, False, None), (['-b'], False, False, None), (['-l', '-v'], True, True, None),
